@@ -7,6 +7,7 @@ from ..core import AnalysisError, call_name, dotted, kwarg, norm, walk_no_nested
 from ..effects import Flow, analyse
 from ..guards import A, And, Not, Or, T, implies, path_formula, show_formula, sites, terminates
 from ..registry import describe, rule
+from .. import tmatch as tm
 from ..util import calls_named, peel, returns_of
 from . import shared
 
@@ -238,8 +239,10 @@ def remove(rc):
                 for n in walk_no_nested(body):
                     if isinstance(n, ast.Assign) and dotted(n.targets[0]) == it.id:
                         src = n.value
-            txt = norm(src, 300)
-            if f"successors({node})" in txt or f"get_children({node})" in txt or (f"if u == {node}" in txt and "self.edges()" in txt):
+            B = {"_n": node}
+            if any(tm.is_(src, t_, B) is not None for t_ in ("self.successors(_n)", "list(self.successors(_n))", "self.get_children(_n)", "list(self.get_children(_n))",
+                                                              "[_v for _u, _v in self.edges() if _u == _n]", "[_v for _u, _v in self.edges if _u == _n]",
+                                                              "[_v for _u, _v in self.edges() if _n == _u]", "self[_n]", "list(self[_n])")):
                 child_loop = True
         rc.ob(f"remove_node: {norm(c)} in child loop: {child_loop}, in place: {inplace}")
         if targets_node and inplace and child_loop:
